@@ -1188,6 +1188,7 @@ class TorProcessProtocol(protocol.ProcessProtocol):
             self.connection_creator = None
         # use SingleObserver
         self._connected_listeners = []  # list of Deferred (None when we're connected)
+        self._connected_result = None  # what we told the listeners (self, or a Failure)
 
         self.attempted_connect = False
         self.to_delete = []
@@ -1211,6 +1212,8 @@ class TorProcessProtocol(protocol.ProcessProtocol):
 
     def when_connected(self):
         if self._connected_listeners is None:
+            if isinstance(self._connected_result, Failure):
+                return fail(self._connected_result)
             return succeed(self)
         d = Deferred()
         self._connected_listeners.append(d)
@@ -1225,6 +1228,7 @@ class TorProcessProtocol(protocol.ProcessProtocol):
         """
         if self._connected_listeners is None:
             return
+        self._connected_result = arg
         for d in self._connected_listeners:
             # Twisted will turn this into an errback if "arg" is a
             # Failure
